@@ -38,6 +38,21 @@ CLAIMED["C14"] = dict(
         "round-trip is proved for all inputs). Trusted: Coq kernel, translator, Go harness, python oracle. No axioms.",
    technique="Rocq proof of hint-file round-trip over a byte-level model + refutation/repair of the lookup defect; differential correspondence for lookup and merge",
    design="6/C14")
+CLAIMED["C01"] = dict(
+   text="Theorem C01_refines (coq/props/C01.v): for ALL configurations, ALL key sets on which the key hash does not collide and ALL histories "
+        "(any length) of set / delete / incr / get / meta-get / forced flush / hint dump -- with data-file rotation wherever the limit puts it -- "
+        "the projected replies of the bucket model (l2_step, the same executable function the correspondence check replays) equal those of a "
+        "20-line reference map (spec/RefMap.v: auto-increment, negated increment on delete, explicit revision iff larger, check_vhash no-op, incr "
+        "rules); proved by a simulation invariant (layout of chunks, tree slot points at the newest record of its key, value hash of the slot = hash "
+        "of the value). Corollaries on the spec: get-after-set, miss-after-delete. The model is tied to /repo by seeded differential histories through "
+        "the real StorageClient incl. restarts, with replies AND directory contents compared (120 histories x ~60 ops per quick run), and a separate "
+        "python reference-map oracle judges the implementation. Two genuine defects found this way were repaired by fix: commits (F13 empty-value "
+        "compress panic, F16 check_vhash delete of a zero-hash value).",
+   note="PARTIAL w.r.t. the property text: restarts/GC inside a history are covered by correspondence and by C02/C03, not by this theorem; multi-get "
+        "and the text protocol are covered in C11. Assumes no key-hash collision inside the key set (C13) and versions inside int32. Compressor and "
+        "sniffing are oracles supplied by the harness. Trusted: Coq kernel, translator, harness (SecsBeforeDump=-1, async flush awaited). No axioms.",
+   technique="Rocq refinement proof (simulation invariant over all histories) of an executable bucket model to a reference map; model tied to code by differential trace replay",
+   design="6/C01 + Appendix A")
 NOT_YET = {}
 props = [json.loads(l) for l in open(os.path.join(V, "properties.jsonl"))]
 checks = []
